@@ -38,7 +38,43 @@ def jsonable(x):
         return repr(x)
 
 
+def sweep(qual, budget):
+    """thorough tier: run the complete enumeration of the adapter on the real code and report, per clause,
+    the first input that makes it fail (a bounded stand-in: finds violations, proves nothing)"""
+    from replay import adapters
+    ad = adapters.find(qual)
+    if ad is None:
+        print(json.dumps({'verdict': 'no-adapter', 'function': qual}))
+        return
+    t0 = time.time()
+    tried = 0
+    failing = {}
+    complete = True
+    errors = 0
+    for inp in ad.enumerate():
+        if time.time() - t0 > budget:
+            complete = False
+            break
+        tried += 1
+        try:
+            obs = ad.run(inp)
+            bad = ad.check(inp, obs)
+        except Exception:
+            errors += 1
+            continue
+        for c in bad:
+            if c not in failing:
+                failing[c] = {'inputs': jsonable(inp), 'observed': jsonable(obs)}
+    print(json.dumps({'verdict': 'sweep', 'function': qual, 'tried': tried, 'complete': complete,
+                      'adapter_errors': errors, 'failing': failing, 'seconds': round(time.time() - t0, 2)}))
+
+
 def main():
+    if sys.argv[1] == '--sweep':
+        signal.signal(signal.SIGALRM, _alarm)
+        budget = float(sys.argv[3]) if len(sys.argv) > 3 else 120.0
+        signal.alarm(int(budget) + 60)
+        return sweep(sys.argv[2], budget)
     path = sys.argv[1]
     budget = float(os.environ.get('PYVC_REPLAY_BUDGET_S', '25'))
     signal.signal(signal.SIGALRM, _alarm)
